@@ -179,11 +179,17 @@ func solve(path string, quickT, longT int, all bool) SolveResult {
 	if first.Verdict != "unsat" && first.Verdict != "sat" && longT > quickT {
 		cands = append(cands, solvers[0])
 	}
+	otherT := longT
+	if first.Verdict == "unsat" || first.Verdict == "sat" {
+		// agreement check only (thorough tier): a short limit is enough,
+		// an undecided second opinion is not a disagreement
+		otherT = min(longT, 15)
+	}
 	for _, s := range cands {
 		wg.Add(1)
 		go func(s solverSpec) {
 			defer wg.Done()
-			ch <- runSolver(rctx, s, path, longT)
+			ch <- runSolver(rctx, s, path, otherT)
 		}(s)
 	}
 	go func() { wg.Wait(); close(ch) }()
